@@ -62,6 +62,9 @@ func freshSlice(s any) bool { return true } // s's backing array was allocated b
 func sameBase(a, b any) bool { return true } // a and b share a backing array
 func sameArray(a, b any) bool { return true } // a is b extended in place: same backing window (base, offset, capacity)
 
+// suffixOf: a is a suffix of b (same backing array, same end).
+func suffixOf(a, b any) bool { return true }
+
 // disjointFromTail: the elements of v do not overlap the spare capacity b[len(b):cap(b)].
 func disjointFromTail(v, b any) bool { return true }
 
@@ -70,4 +73,4 @@ func bytesEq[A, B ~[]byte | ~string](a A, b B) bool { return string(a) == string
 // loopIndex names the hidden index of the innermost enclosing range loop in loop invariants.
 var loopIndex int
 
-var _ = []any{requires, ensures, assert, assume, imp, iff, forall, exists, modifiesTail, modifiesElems, modifiesPtr, modifiesAll, freshSlice, sameBase, sameArray, disjointFromTail, loopIndex}
+var _ = []any{requires, ensures, assert, assume, imp, iff, forall, exists, modifiesTail, modifiesElems, modifiesPtr, modifiesAll, freshSlice, sameBase, sameArray, disjointFromTail, suffixOf, loopIndex}
